@@ -144,8 +144,8 @@ Qed.
 Lemma meta_flush_wrapping s s' : flush_wrapping s = Ok s' -> meta_of s' = meta_of s.
 Proof.
   unfold flush_wrapping. destruct (wrapping s) as [w|]; [|intros H; ok_inv H; reflexivity].
-  destruct (take_trailing_fragments w) as [w1 frags]. intros H. bind_inv H ls Hls. ok_inv H.
-  transitivity (meta_of (extend_lines (set_wrapping s None) (map RText ls))); [reflexivity|].
+  destruct (take_trailing_fragments w) as [w1 frags]. intros H. bind_inv H lm Hlm. ok_inv H.
+  transitivity (meta_of (extend_lines (set_wrapping s None) (map RText (fst lm)))); [reflexivity|].
   rewrite meta_extend_lines. reflexivity.
 Qed.
 
@@ -657,7 +657,12 @@ Section TagInv.
     destruct (wrapping s) as [w|] eqn:Ew; [|ok_inv H; unfold sub_Q; rewrite Ew; auto].
     cbn [owb_Q] in C. pose proof (take_trailing_fragments_Q w C) as [Hw1 Hfr].
     destruct (take_trailing_fragments w) as [w1 frags]. cbn [fst snd] in *.
-    bind_inv H ls Hls. ok_inv H.
+    bind_inv H lm Hlm. ok_inv H.
+    pose proof (WrapInv.wb_into_lines_markers_fst _ _ Hlm) as Hls.
+    assert (Hmk : Forall elem_Q (snd lm)).
+    { apply Forall_forall. intros e He.
+      destruct (WrapInv.wb_into_lines_markers_frags _ _ Hlm e He) as [n ->]. exact I. }
+    destruct lm as [ls mk]. cbn [fst snd] in *.
     pose proof (wb_into_lines_Q _ _ Hw1 Hls) as Hlq.
     assert (S0 : sub_Q (set_wrapping s None)) by (unfold sub_Q; cbn; auto).
     assert (Hls' : Forall rline_Q (map RText ls)).
@@ -665,7 +670,8 @@ Section TagInv.
       rewrite Forall_forall in Hlq. apply Hlq, Hl. }
     destruct (extend_lines_Q _ _ S0 Hls') as (A1 & B1 & C1).
     unfold sub_Q. cbn [slines pending_frags wrapping set_lines].
-    split; [exact A1|]. split; [apply Forall_app; split; assumption|exact C1].
+    split; [exact A1|]. split; [|exact C1].
+    apply Forall_app; split; [assumption|]. apply Forall_app; split; assumption.
   Qed.
 
   Lemma sub_into_lines_Q s ls : sub_Q s -> sub_into_lines s = Ok ls -> Forall rline_Q ls.
